@@ -15,7 +15,7 @@ SENTINEL = True      # prelude cases (factory objects used and moved) are judged
 HASH_ADMISSION = False   # snapshots are exact; only the history-independence clause honours the hash-boundary flag
 BUDGET = {"quick": 2400, "thorough": 60000}
 SOFT = {"quick": 80, "thorough": 560}
-RULE = ("a world of 11 live objects of all kinds built from SHARED argument objects (4 points, 3 vectors, the vertex points of a "
+RULE = ("a world of 13 live objects of all kinds built from SHARED argument objects (4 points, 3 vectors, the vertex points of a "
         "polygon, the face polygons of a polyhedron) and a script of 5-30 steps: queries over ordered operand pairs "
         "(intersection, in, distance, angle, parallel, orthogonal, ==, hash, repr, length/area/volume, collinear-points "
         "helper), in-place mutations of the shared arguments (Point.move, coordinate / item assignment, Vector item assignment, "
@@ -24,7 +24,7 @@ RULE = ("a world of 11 live objects of all kinds built from SHARED argument obje
         "distinct by content hash of world + script")
 QUERIES = ("intersection", "in", "distance", "angle", "parallel", "orthogonal", "eq", "hash", "repr", "measure", "helper")
 OWNERS = (1, 2, 3, 4, 5, 8, 9)          # must not follow later mutation of their constructor arguments
-ALIASING = (6, 7)                        # Plane / Line(Point, Vector) share arguments by design (outside the ownership clause)
+ALIASING = (6, 7, 11, 12)                # Plane / Line(Point, Vector) share arguments by design (outside the ownership clause)
 REQUIRED_FUNCS = ("intersection", "distance", "angle", "Segment.__init__", "HalfLine.__init__", "ConvexPolygon.__init__",
                   "ConvexPolyhedron.__init__", "get_segment_from_point_list")
 _PERMS = ((0, 1, 2), (1, 0, 2), (1, 2, 0), (2, 1, 0), (0, 2, 1), (2, 0, 1))
@@ -43,7 +43,7 @@ def required_cells(tier):
     req["history:returned-object-moved-by-caller"] = 100
     req["move-original"] = 100
     req["move-copy"] = 100
-    for i in range(11):
+    for i in range(13):
         req["operand:%d" % i] = 200
     return req
 
@@ -60,15 +60,15 @@ def cases(rng, budget, widx, nworkers, tier):
         for _ in range(rng.randint(5, 30)):
             r = rng.random()
             if r < 0.62:
-                script.append(["q", rng.choice(QUERIES), rng.randrange(11), rng.randrange(11)])
+                script.append(["q", rng.choice(QUERIES), rng.randrange(13), rng.randrange(13)])
             elif r < 0.8:
                 script.append(["m", rng.choice(("point-move", "point-attr", "point-item", "vector-item", "face-move", "segment-item")),
                                rng.randrange(8), [rng.randint(-8, 8) for _ in range(3)], rng.randrange(3)])
             elif r < 0.9:
-                script.append(["c", rng.randrange(11)])
+                script.append(["c", rng.randrange(13)])
             else:
-                script.append(["mv", rng.randrange(11), [rng.randint(-8, 8) for _ in range(3)], rng.random() < 0.5])
-        yield {"pg": pg, "ph": ph, "pts": pts, "vecs": vecs, "script": script, "flips": rng.getrandbits(len(ph[2])), "probes": [[rng.choice(QUERIES), rng.randrange(11), rng.randrange(11)] for _ in range(6)]}
+                script.append(["mv", rng.randrange(13), [rng.randint(-8, 8) for _ in range(3)], rng.random() < 0.5])
+        yield {"pg": pg, "ph": ph, "pts": pts, "vecs": vecs, "script": script, "flips": rng.getrandbits(len(ph[2])), "probes": [[rng.choice(QUERIES), rng.randrange(13), rng.randrange(13)] for _ in range(6)]}
 
 
 class World:
@@ -96,6 +96,14 @@ class World:
             G.ConvexPolyhedron(tuple(self.faces)),
             V(case["vecs"][3]),
         ]
+        # operands in special position to the others: a plane containing a face of the polyhedron (either normal
+        # sense) and a line carrying the segment pool[2] (either sense)
+        f0 = case["ph"][2][case.get("flips", 0) % len(case["ph"][2])]
+        n0 = K.polygon_normal(f0)
+        sgn = -1 if (case.get("flips", 0) >> 3) & 1 else 1
+        self.pool.append(G.Plane(P(f0[0]), V(K.mul(gen._reduce(n0), sgn))))
+        d_ = K.sub(case["pts"][1], case["pts"][0])
+        self.pool.append(G.Line(P(K.add(case["pts"][0], K.mul(d_, 2))), V(K.mul(d_, -sgn))))
         self.copies = []       # (object, frozen snapshot owner index or None)
 
     def everything(self):
